@@ -53,11 +53,11 @@ var jsonKinds = map[string]bool{"int": true, "string": true, "bool": true, "int8
 
 // kinds for which the typeclass packages provide (or gombok derives) instances
 var classKinds = map[string]map[string]bool{
-	"eq":     set("int", "int8", "int64", "uint64", "bool", "string", "myint", "mystr", "time", "dur", "bytes", "money", "pt", "opt", "slice", "seq", "map", "ptr", "tuple2", "struct", "tparam", "index"),
+	"eq":     set("int", "int8", "int64", "uint64", "bool", "string", "myint", "mystr", "time", "dur", "bytes", "money", "pt", "opt", "slice", "seq", "map", "ptr", "tuple2", "struct", "tparam", "index", "mid"),
 	"ord":    set("int", "int8", "int64", "uint64", "string", "myint", "mystr", "time", "dur", "money", "opt", "slice", "seq", "ptr", "tuple2", "struct", "tparam"),
 	"hash":   set("int", "int8", "int64", "uint64", "string", "myint", "dur", "bytes", "money", "opt", "slice", "seq", "ptr", "tuple2", "struct", "tparam"),
 	"monoid": set("int", "int8", "int64", "uint64", "string", "mystr", "myint", "dur", "money", "opt", "slice", "seq", "map", "tuple2", "struct", "tparam"),
-	"clone":  set("int", "int8", "int64", "uint64", "bool", "string", "myint", "mystr", "time", "dur", "bytes", "money", "opt", "slice", "seq", "map", "ptr", "tuple2", "struct", "tparam", "any", "index"),
+	"clone":  set("int", "int8", "int64", "uint64", "bool", "string", "myint", "mystr", "time", "dur", "bytes", "money", "opt", "slice", "seq", "map", "ptr", "tuple2", "struct", "tparam", "any", "index", "mid"),
 	"show":   set("int", "int8", "int64", "uint64", "bool", "string", "myint", "time", "opt", "slice", "seq", "ptr", "tuple2", "struct"),
 }
 
@@ -572,6 +572,25 @@ func GenStruct(r *Rng, pkg *Package, name string) *Struct {
 			return k == "int" || k == "string" || k == "bool" || k == "int64" || k == "opt" || k == "slice" || k == "ptr" || k == "map" || k == "myint" || k == "mystr"
 		}
 		c.fields(1+r.Intn(3), false, true)
+		if r.Intn(2) == 0 {
+			// three levels (Root -> ZzMid -> ZzIndex) with ZzMid FIRST met as the element of a container field; a direct field
+			// only afterwards, if at all (seed C08-8: the derive scheduled for a nested type met inside a container lost the
+			// directive's tags, so recursive=true stopped one level below a slice / pointer / option / map field)
+			switch r.Intn(4) {
+			case 0:
+				st.Fields = append(st.Fields, Field{Name: "Mids", Ty: TE("slice", T("mid"))})
+			case 1:
+				st.Fields = append(st.Fields, Field{Name: "PMid", Ty: TE("ptr", T("mid"))})
+			case 2:
+				st.Fields = append(st.Fields, Field{Name: "OMid", Ty: TE("opt", T("mid"))})
+			default:
+				st.Fields = append(st.Fields, Field{Name: "MMid", Ty: TE("map", T("mid"))})
+			}
+			if r.Intn(3) == 0 {
+				st.Fields = append(st.Fields, Field{Name: "Mid", Ty: T("mid")})
+			}
+			break
+		}
 		st.Fields = append(st.Fields, Field{Name: "Idx", Ty: T("index")})
 		switch r.Intn(3) {
 		case 0:
